@@ -114,6 +114,7 @@ def run(repo, rep, tier):
                             'found %d' % r2.sites)
     _notation_rule(repo, rep)
     factories_agree(repo, rep)
+    keys_as_stored(repo, rep)
     # ---- R3 ---------------------------------------------------------------
     mod = repo.module(VM)
     for f in mod.all_funcs():
@@ -859,3 +860,99 @@ def factories_agree(repo, rep):
                         'element the class inherits raises KeyError '
                         'instead of being mapped'
                         % (fn, dict(kws), dict(x for x in major[:-1])))
+
+
+def keys_as_stored(repo, rep):
+    """C20.R10: the translation tables are read with keys of the form they
+    were stored under.  The tables map Values strings / integers exactly as
+    they appear in the qualifiers (tovalues() and items() hand those strings
+    out unchanged); a lookup that first transforms its argument
+    (`values_str.strip()`, `.lower()`) finds another entry - or none - for a
+    string that is in the Values array, so tobinary(tovalues(x)) no longer
+    contains x."""
+    r10 = rep.rule('C20.R10', 'translation tables are read with the key in '
+                   'the form it was stored in')
+    vm = repo.cls(VM, 'ValueMapping')
+    tables = {}
+    for f in vm.methods.values():
+        for n in walk_no_nested(f.node):
+            if isinstance(n, ast.Assign) and \
+                    isinstance(n.value, (ast.Dict, ast.Call)) and \
+                    len(n.targets) == 1 and \
+                    isinstance(n.targets[0], ast.Attribute) and \
+                    n.targets[0].attr.startswith('_') and \
+                    (isinstance(n.value, ast.Dict) or
+                     dotted(n.value.func) in ('OrderedDict', 'dict',
+                                              'NocaseDict')):
+                tables.setdefault(n.targets[0].attr, None)
+    if len(tables) < 2:
+        raise AnalysisError('C20.R10: translation tables of ValueMapping '
+                            'not found')
+
+    def shape(k):
+        """the transformations applied to the key variable"""
+        out = []
+        while True:
+            if isinstance(k, ast.Call) and \
+                    isinstance(k.func, ast.Attribute):
+                out.append('.' + k.func.attr)
+                k = k.func.value
+            elif isinstance(k, ast.Call) and isinstance(k.func, ast.Name) \
+                    and len(k.args) == 1:
+                out.append(k.func.id)
+                k = k.args[0]
+            elif isinstance(k, ast.Subscript):
+                out.append('[]')
+                k = k.value
+            else:
+                break
+        return tuple(out)
+    stores, reads = {}, {}
+    for f in vm.methods.values():
+        for n in walk_no_nested(f.node):
+            key = tab = None
+            store = False
+            if isinstance(n, ast.Subscript) and \
+                    isinstance(n.value, ast.Attribute) and \
+                    n.value.attr in tables:
+                tab, key = n.value.attr, n.slice
+                store = isinstance(n.ctx, ast.Store)
+            elif isinstance(n, ast.Call) and \
+                    isinstance(n.func, ast.Attribute) and \
+                    n.func.attr in ('get', 'pop', 'setdefault') and \
+                    isinstance(n.func.value, ast.Attribute) and \
+                    n.func.value.attr in tables and n.args:
+                tab, key = n.func.value.attr, n.args[0]
+            elif isinstance(n, ast.Compare) and len(n.ops) == 1 and \
+                    isinstance(n.ops[0], (ast.In, ast.NotIn)) and \
+                    isinstance(n.comparators[0], ast.Attribute) and \
+                    n.comparators[0].attr in tables:
+                tab, key = n.comparators[0].attr, n.left
+            if tab is None:
+                continue
+            (stores if store else reads).setdefault(tab, []).append(
+                (f, n, shape(key)))
+    n_reads = 0
+    for tab, rs in sorted(reads.items()):
+        st_shapes = {sh for _f, _n, sh in stores.get(tab, [])}
+        if not st_shapes:
+            continue
+        for f, n, sh in rs:
+            n_reads += 1
+            r10.sites += 1
+            r10.functions.add(f.fq)
+            ok = sh in st_shapes
+            r10.ob(ok, '%s|%s' % (f.qualname, norm(n, 60)),
+                   {'table': tab, 'key_form': list(sh),
+                    'stored_forms': sorted(map(list, st_shapes))})
+            if not ok:
+                rep.finding(r10, f.qualname, norm(n, 70), 'key-transformed',
+                            VM, n.lineno,
+                            'table %s is filled with keys of the form %s '
+                            'but read here with a key transformed by %s: a '
+                            'Values string / value that is in the table is '
+                            'not found under (or is confused with) another '
+                            'entry' % (tab, sorted(map(list, st_shapes)),
+                                       list(sh)))
+    if n_reads < 3:
+        raise AnalysisError('C20.R10: only %d table reads found' % n_reads)
